@@ -49,18 +49,30 @@ fn timing_field(line: Option<&str>, key: &str) -> Option<i64> {
 
 fn one(out: &mut impl Write, kind: &str, worker: &str, mode: &str, socket_workers: usize, swarm_workers: usize) {
     let head = format!("sv {} {} {} {} {}", kind, worker, mode, socket_workers, swarm_workers);
-    if mode == "bind" {
+    if mode == "bind" || mode == "bind4" || mode == "bind6" {
         // a socket worker cannot set up its socket: the port is taken (no SO_REUSEPORT on our side)
         // (the port must really be held by us - another process may have taken it in between - or the case shows nothing)
+        //   bind : IPv4-only configuration, the IPv4 address is taken
+        //   bind4: dual-stack configuration, only the IPv4 address is taken (the IPv6 one is free)
+        //   bind6: dual-stack configuration, only the IPv6 address is taken (the IPv4 one is free)
+        let v6 = mode == "bind6";
+        let host: std::net::IpAddr = if v6 { "::1".parse().unwrap() } else { "127.0.0.1".parse().unwrap() };
+        let other: std::net::IpAddr = if v6 { "127.0.0.1".parse().unwrap() } else { "::1".parse().unwrap() };
         let mut held = None;
         for _ in 0..20 {
             let port = crate::net::free_port();
-            if let (Ok(l), Ok(u)) = (TcpListener::bind(("127.0.0.1", port)), UdpSocket::bind(("127.0.0.1", port))) { held = Some((port, l, u)); break; }
+            if mode != "bind" {
+                // the other family's address must be free for the tracker
+                let free = TcpListener::bind((other, port)).is_ok() && UdpSocket::bind((other, port)).is_ok();
+                if !free { continue; }
+            }
+            if let (Ok(l), Ok(u)) = (TcpListener::bind((host, port)), UdpSocket::bind((host, port))) { held = Some((port, l, u)); break; }
         }
         let Some((port, _l, _u)) = held else { writeln!(out, "{} => NO-OBSERVATION could-not-occupy-a-port", head).unwrap(); return; };
+        let use_ipv6 = if mode == "bind" { "use_ipv6=false" } else { "use_ipv6=true" };
         let exe = std::env::current_exe().unwrap();
         let t0 = Instant::now();
-        let mut child = std::process::Command::new(exe).args(["serve", kind, &format!("port={}", port), "use_ipv6=false", &format!("socket_workers={}", socket_workers), &format!("swarm_workers={}", swarm_workers)])
+        let mut child = std::process::Command::new(exe).args(["serve", kind, &format!("port={}", port), use_ipv6, &format!("socket_workers={}", socket_workers), &format!("swarm_workers={}", swarm_workers)])
             .stdin(std::process::Stdio::null()).stdout(std::process::Stdio::piped()).stderr(std::process::Stdio::null()).spawn().unwrap();
         let mut res = format!("RUNNING {}", 12000);
         while t0.elapsed() < Duration::from_secs(40) {
@@ -120,6 +132,8 @@ pub fn run(out: &mut impl Write, seed: u64, cases: usize, _replay: &str) {
         all.push((k, "swarm-clean", "panic"));
     }
     for k in ["udp", "http", "ws"] { all.push((k, "socket", "bind")); }
+    // dual-stack configurations in which one of the two sockets cannot be set up (the WebTorrent tracker has one address)
+    for k in ["udp", "http"] { for m in ["bind4", "bind6"] { all.push((k, "socket", m)); } }
     let mut r = Sm::new(seed);
     // a fixed core first (one of each tracker), then the rest in shuffled order
     for i in (1..all.len()).rev() { let j = r.below(i as u64 + 1) as usize; all.swap(i, j); }
